@@ -522,6 +522,10 @@ struct ConcreteEval {
     base_frames: usize,
     base_caps: usize,
     base_auto_escape: bool,
+    /// auto-escape modes saved at each PushAutoEscape of this evaluation (from the real trace)
+    ae_modes: Vec<String>,
+    /// the instruction executed last was a PopAutoEscape
+    after_pop_ae: bool,
     /// abstract states consistent with the trace so far
     cands: Vec<AState>,
     last_pc: Option<u32>,
@@ -542,10 +546,26 @@ fn conform(events: &[Event], streams: &HashMap<usize, (&Instructions<'_>, &HashS
     for ev in events {
         match ev {
             Event::Enter { stream, pc, operands, frames, captures, auto_escape } => {
-                stack.push(ConcreteEval { stream: *stream, base_frames: *frames, base_caps: *captures, base_auto_escape: *auto_escape, cands: vec![AState::entry(*pc, *operands)], last_pc: None });
+                stack.push(ConcreteEval { stream: *stream, base_frames: *frames, base_caps: *captures, base_auto_escape: *auto_escape, ae_modes: vec![], after_pop_ae: false, cands: vec![AState::entry(*pc, *operands)], last_pc: None });
             }
-            Event::Instr { stream, pc, operands, frame_is_loop, captures, auto_escape_depth, .. } => {
+            Event::Instr { stream, pc, operands, frame_is_loop, captures, auto_escape_depth, auto_escape_mode, .. } => {
                 let Some(cur) = stack.last_mut() else { return Err("Instr event outside an evaluation".into()) };
+                // an autoescape block must restore exactly the mode that was in effect when it began
+                if cur.after_pop_ae {
+                    cur.after_pop_ae = false;
+                    if let Some(saved) = cur.ae_modes.pop() {
+                        if &saved != auto_escape_mode {
+                            return Err(format!("BALANCE: the autoescape block ending before pc {} restored mode {} but mode {} was in effect when it began", pc, auto_escape_mode, saved));
+                        }
+                    }
+                }
+                if let Some((instrs, _)) = streams.get(stream) {
+                    match instrs.get(*pc) {
+                        Some(Instruction::PushAutoEscape) => cur.ae_modes.push(auto_escape_mode.clone()),
+                        Some(Instruction::PopAutoEscape) => cur.after_pop_ae = true,
+                        _ => {}
+                    }
+                }
                 let Some((instrs, explored)) = streams.get(stream) else {
                     // a stream of a template that is not part of the analysed program (never happens here)
                     cur.cands.clear();
@@ -593,8 +613,15 @@ fn conform(events: &[Event], streams: &HashMap<usize, (&Instructions<'_>, &HashS
                 }
                 cur.last_pc = Some(*pc);
             }
-            Event::Exit { stream, frames, captures, auto_escape_depth, auto_escape, .. } => {
-                let Some(cur) = stack.pop() else { return Err("Exit event without Enter".into()) };
+            Event::Exit { stream, frames, captures, auto_escape_depth, auto_escape, auto_escape_mode, .. } => {
+                let Some(mut cur) = stack.pop() else { return Err("Exit event without Enter".into()) };
+                if cur.after_pop_ae {
+                    if let Some(saved) = cur.ae_modes.pop() {
+                        if &saved != auto_escape_mode {
+                            return Err(format!("BALANCE: the autoescape block ending the evaluation restored mode {} but mode {} was in effect when it began", auto_escape_mode, saved));
+                        }
+                    }
+                }
                 // (an extends switches to the parent's initial mode; only same-stream exits are compared)
                 if *auto_escape != cur.base_auto_escape && *stream == cur.stream {
                     return Err(format!("BALANCE: evaluation entered with auto-escape {} and left with auto-escape {}", cur.base_auto_escape, auto_escape));
